@@ -72,15 +72,25 @@ class CallGraph(object):
     def param_types(self, fi, name):
         ts = set(self.params.get((fi, name), ()))
         if fi.cls is not None and fi.params and name == fi.params[0]:
+            # the receiver can only be of a class whose attribute of this
+            # name still resolves to this very function (an override or a
+            # `X = Base.__dict__[...]` re-binding in a subclass excludes it)
+            def keeps(s):
+                if isinstance(fi.node, ast.Lambda):
+                    return True
+                m = self.db.find_method(s, fi.name)
+                return m is fi or m is None
             if fi.kind in ('instance', 'property', 'property_setter',
                            'property_deleter', 'property_getter'):
                 ts.add(('inst', fi.cls))
                 for s in self.db.subclasses(fi.cls):
-                    ts.add(('inst', s))
+                    if keeps(s):
+                        ts.add(('inst', s))
             elif fi.kind == 'class':
                 ts.add(('cls', fi.cls))
                 for s in self.db.subclasses(fi.cls):
-                    ts.add(('cls', s))
+                    if keeps(s):
+                        ts.add(('cls', s))
             elif fi.kind == 'class_and_instance':
                 # bound to the class when looked up on a class, to the
                 # instance otherwise; classes with a constructor of their
